@@ -3,10 +3,18 @@ use super::*;
 #[cfg(not(kani))]
 use crate::kani;
 
-fn dur_ns(max: u64) -> Duration {
-    let n: u64 = kani::any();
-    kani::assume(n <= max);
-    Duration::from_nanos(n)
+/// `maxns == 0` selects the quick-tier domain: microsecond-granular 16-bit values (<= 65.5 ms),
+/// whose constant upper bits keep the ns <-> us <-> Duration divisions cheap for the SAT solver;
+/// otherwise an arbitrary nanosecond value <= maxns
+fn dur_ns(maxns: u64) -> Duration {
+    if maxns == 0 {
+        let us: u16 = kani::any();
+        Duration::from_micros(us as u64)
+    } else {
+        let n: u64 = kani::any();
+        kani::assume(n <= maxns);
+        Duration::from_nanos(n)
+    }
 }
 
 /// arbitrary estimator with every duration <= maxns; invariant: MIN_RTT <= min_rtt <= latest_rtt,
@@ -16,7 +24,13 @@ fn any_est(maxns: u64) -> RttEstimator {
     let min_rtt = dur_ns(maxns);
     let smoothed = dur_ns(maxns);
     let rttvar = dur_ns(maxns);
-    let mad = dur_ns(16_383_000_000);
+    let mad = if maxns == 0 {
+        let ms: u16 = kani::any();
+        kani::assume(ms < 16384);
+        Duration::from_millis(ms as u64)
+    } else {
+        dur_ns(16_383_000_000)
+    };
     kani::assume(min_rtt >= MIN_RTT && min_rtt <= latest);
     let m8 = (min_rtt.as_nanos() as u64 / 8) * 8;
     kani::assume(smoothed.as_nanos() as u64 >= m8);
@@ -130,6 +144,19 @@ fn verif_rtt_pto_32() {
     pto_and_threshold(u32::MAX as u64);
 }
 
+// quick: microsecond-granular durations <= 65.5 ms
+#[cfg_attr(kani, kani::proof)]
+#[cfg_attr(kani, kani::unwind(2))]
+fn verif_rtt_update_bounds_us16() {
+    update_bounds(0);
+}
+
+#[cfg_attr(kani, kani::proof)]
+#[cfg_attr(kani, kani::unwind(2))]
+fn verif_rtt_pto_us16() {
+    pto_and_threshold(0);
+}
+
 // ---- generated by tools/fixup.py: native replay entry ----
 #[cfg(not(kani))]
 #[test]
@@ -139,5 +166,7 @@ fn verif_replay() {
         ("verif_rtt_update_bounds_32", verif_rtt_update_bounds_32),
         ("verif_rtt_pto_24", verif_rtt_pto_24),
         ("verif_rtt_pto_32", verif_rtt_pto_32),
+        ("verif_rtt_update_bounds_us16", verif_rtt_update_bounds_us16),
+        ("verif_rtt_pto_us16", verif_rtt_pto_us16),
     ]);
 }
